@@ -174,6 +174,17 @@ CHECKS["C14"]["text"] += " The DHCPv4 table also varies giaddr and option 82 (ci
 CHECKS["C15"]["text"] += " The shaping plugin also sets or clears the REPLY's broadcast bit: the cascade follows the client's flag."
 CHECKS["C18"]["text"] += " Representative documents are also stored under 11 other file names (.yaml, .conf, .cfg, .yml.new, no extension, .json, .toml, .ini, upper case, with a blank, hidden)."
 CHECKS["C20"]["text"] += " Purity: every ordered pair of base patterns goes through one reused argument buffer in three call orders and is judged against math/big (results must not depend on call history). Thorough: 5 700 base patterns (single-bit, 2^k-1, two-bit) x distances 2^k-1, 2^k, 2^k+1 (2 x 10^8 evaluations)."
+# ---- additions of seed round 9 and of the proactive closures
+CHECKS["C02"]["text"] += " Environment op: another connection holds the database's write lock for 300 ms while a request is handled."
+CHECKS["C03"]["text"] += " The locked-database op of C02 runs with the crash-image oracle."
+for k in ("C04","C05","C06"):
+    CHECKS[k]["text"] += " The graphs have a 'tick' operation (an hour of virtual time passes for the instrumented allocator); a 4-address range across every /8 boundary of IPv4 and a 4-block pool at every /8 of IPv6 hold exactly 4 and honour every hint."
+CHECKS["C08"]["text"] += " Time gaps of 1 s .. 25 h between the messages of one client; Confirm and Information-Request messages (safety clauses only)."
+CHECKS["C09"]["text"] += " Time-gap sweeps as in C08."
+CHECKS["C11"]["text"] += " Part B4: every other option code in three payload shapes added to a relayed request."
+CHECKS["C12"]["text"] += " Extra-option closure: every other DHCPv6 option code (three payload shapes; those the codec rejects are skipped) in the client message or in a relay layer."
+CHECKS["C14"]["text"] += " Extra-option closure on the DHCPv6 decision (5 types x 3 Server Identifier variants x every other option code)."
+CHECKS["C19"]["text"] += " Chains through the real loader: every ordered pair (thorough: every triple starting with server_id) of the 15 built-in plugins in one section, both protocols, incl. plugins without a set-up function for that protocol; accepted chains are driven with the request battery through HandleMsg4/6."
 ALL = ["C%02d" % i for i in range(1, 21)]
 NA_REASON = "check not built yet in this session (planned, see DESIGN.md section 5); will be claimed once its machinery exists"
 m = {
